@@ -563,7 +563,9 @@ LEVEL_TEXT = (
     'defining equations. Direct oracles on the real code: group law, inverse, h2 conservation, closed form via expm, ODE '
     'reference, linearity and finite differences of the flow in the momentum vs dh2_flow_dmom; any exception is a violation; '
     'the same oracles after the metric was replaced following a first use (direct assignment, OnlineVariance/'
-    'OnlineCovarianceMetricAdapter.finalize). Source level (Props/C07S): the bodies of h1_flow / h2_flow / dh2_flow_dmom '
+    'OnlineCovarianceMetricAdapter.finalize) and with derived metric objects (inverses, scalar multiples, transposes, block '
+    'diagonals of matrices whose lazily computed eigendecompositions / factors were touched first; reference = dense array '
+    'obtained from the recipe without mici). Source level (Props/C07S): the bodies of h1_flow / h2_flow / dh2_flow_dmom '
     'in systems.py are re-translated on every run (tools/extractors/system_methods.py -> Generated/SystemMethods.lean) and '
     'src_<Class>_h1_flow/h2_flow/dh2_flow_dmom_eq_model prove that executing the generated in-place bodies (calls resolved '
     'through the generated MRO) gives kick with the class\' own dh1_dpos, drift with metric.inv, harmonic with omega = 1.0 / '
